@@ -102,6 +102,14 @@ class Ctx:
         total_inst = sum(self.rule_counts.values())
         nontriv = sum(len(s) for s in self.rule_nontrivial.values())
         wall = time.time() - self.t0
+        if self.write_evidence:
+            self._write_evidence(wall, len(new), len(matched), error)
+        try:
+            return self._print_verdict(new, matched, error, total_inst, nontriv, wall)
+        except BrokenPipeError:
+            return 2 if error is not None else (1 if new else 0)
+
+    def _print_verdict(self, new, matched, error, total_inst, nontriv, wall):
         print(f"[{self.pid}] tier={self.tier} root={self.root} rules={len(self.rule_counts)} "
               f"instances={total_inst} nontrivial={nontriv} wall={wall:.2f}s")
         for r in sorted(self.rule_counts):
@@ -133,8 +141,7 @@ class Ctx:
                     print(f"    {d}")
                 print(f"VIOLATION property={self.pid} replay={report_path}")
             code = 1
-        if self.write_evidence:
-            self._write_evidence(wall, len(new), len(matched), error)
+        sys.stdout.flush()
         return code
 
     def _write_evidence(self, wall, n_new, n_known, error):
